@@ -9,7 +9,7 @@ open MakoModel.Generated.Lookup
 /-- the shape of a program counter in a first-request system; `c` = number of constructions so far -/
 def PcOnce (u : Uri) (d0 : Dir) (t0 : Tmpl) (c : Nat) : Pc → Prop
   | .idle => True
-  | .gS u' t => u' = u ∧ t = t0 ∧ c = 1
+  | .gS u' t | .gRelS u' t => u' = u ∧ t = t0 ∧ c = 1
   | .gF u' d => u' = u ∧ d ≤ d0
   | .gAcq u' d | .gH2 u' d | .gC u' d => u' = u ∧ d = d0
   | .gW u' d t => u' = u ∧ d = d0 ∧ t = t0 ∧ c = 1
@@ -216,7 +216,7 @@ theorem tstep_pcOnce {cfg : Cfg} {tid : Tid} {sh sh' : Sh} {th th' : Thread} {u 
     have hr := ‹(readColl _ _ _).fst = some _›
     have ht := hvals _ (readColl_some hr)
     subst ht
-    exact ⟨⟨⟨true, _, rfl⟩, by simpa using hne (readColl_some hr)⟩, hres, by simpa [Thread.at] using hresc⟩
+    exact ⟨⟨rfl, rfl, by simpa using hne (readColl_some hr)⟩, hres, by simpa [Thread.at] using hresc⟩
   · -- gH2, miss
     exact ⟨hpc, hres, by simpa [Thread.at] using hresc⟩
   · -- gC, file vanished: impossible
@@ -259,6 +259,12 @@ theorem tstep_pcOnce {cfg : Cfg} {tid : Tid} {sh sh' : Sh} {th th' : Thread} {u 
     exact ⟨hpc, hres, hresc⟩
   · -- gRel
     have := resOnce_ret (th := th) (c := sh.constructions) hres hpc.1 hpc.2
+    exact ⟨trivial, this.1, this.2⟩
+  · -- gRelS, filesystem_checks: on to `_check`
+    exact ⟨hpc, hres, hresc⟩
+  · -- gRelS, no checks: return the second-chance hit
+    obtain ⟨rfl, rfl, hc1⟩ := hpc
+    have := resOnce_ret (th := th) (r := th.okRes _ true) (c := sh.constructions) hres ⟨true, _, rfl⟩ hc1
     exact ⟨trivial, this.1, this.2⟩
 
 /-- a thread enters `gC` only from a missed second-chance read, `gW` only from a successful construction -/
